@@ -1924,3 +1924,24 @@ def r02_14(ctx):
                     "nothing is in flight: segments sent before the window closed and still unacknowledged are never retransmitted, poll_at answers Ingress and the connection stalls", body=b, bb=s_)
         else:
             ctx.ok(('process', 'zwp-stop', s_), sample=dict(fn='process', idle_only_when='nothing in flight'))
+
+
+@rule('R19.6', ['C19'], floor=1, clause='a response never rewrites the question of a pending query: PendingQuery.name is written only where the query is started (following a CNAME works on a copy), so a response that ends up dropped leaves the query asking for the name the application gave')
+def r19_6(ctx):
+    F = ctx.F
+    PQ = 'socket::dns::PendingQuery'
+    ws = [w for w in F.field_writes() if w['adt'] == PQ and w['field'] == 'name' and '::test' not in w['fn']]
+    starters = [w for w in ws if 'start_query' in w['fn']]
+    ctx.need(True, "")
+    n = 0
+    for w in ws:
+        fnm = w['fn'].rsplit('::', 1)[-1]
+        if 'start_query' in w['fn'] or fnm in ('new',):
+            continue
+        n += 1
+        ctx.bad(f"{fnm}|pending-query-name-rewritten", f"dns::Socket::{fnm} writes PendingQuery.name ({w['kind']}): a CNAME in a response that is later dropped as malformed - or that simply is not "
+                "the last word - redirects the still pending query: it retransmits with the CNAME target as its question and rejects genuine answers for the original name", body=F.body(w['fn']), bb=w['bb'])
+    pqs = [k for k in F.bodies if k.startswith('socket::dns::Socket') and k.endswith('::process')]
+    ctx.need(pqs, "dns::Socket::process")
+    if n == 0:
+        ctx.ok(('dns::process', 'question not rewritten'), sample=dict(fn='dns::Socket::process', writes_to_PendingQuery_name=0))
